@@ -33,8 +33,13 @@ Definition E_NOCONN : N := 1.
 Definition E_VALPENDING : N := 2.
 Definition E_DIALFAIL : N := 3.
 
+(* Events in the user event channel. UClosed p is NotificationStreamClosed as NotificationProtocol reports it
+   (stream_id None: "the stream that is open now") and as the user sees it; UClosedT p k is the report of
+   Connection task k (stream_id Some k), which the handle passes on as NotificationStreamClosed only if the sink
+   it holds for p belongs to stream k (see drain / delivered). *)
 Inductive uev := UValidate (p : peer) | UOpened (p : peer) (d : dir) | UClosed (p : peer) | UFail (p : peer) (e : N)
-               | UNotif (p : peer).   (* NotificationReceived *)
+               | UNotif (p : peer)    (* NotificationReceived *)
+               | UClosedT (p : peer) (k : N).
 Inductive call := CDial (p : peer) | COpen (p : peer) (s : sid) | CForce (p : peer)
                 | CRet (p : peer) (code : N)          (* what a send call returned to the user *)
                 | CWire (p : peer) (k : N) (m : N).   (* frame m written on the outbound substream of task k *)
@@ -150,8 +155,9 @@ Definition remove_task (k : N) (l : list task) : list task :=
 Definition map_task (k : N) (f : task -> task) (l : list task) : list task :=
   map (fun t => if t_id t =? k then f t else t) l.
 
-(* the shutdown sender towards task k is used or dropped: a running task closes without
-   notifying the protocol; it reports NotificationStreamClosed once its substreams are closed *)
+(* the shutdown sender towards task k is used or dropped (the protocol reports the stream closed itself
+   at that moment: on_closed / on_close): a running task closes without notifying the protocol; once its
+   substreams are closed it reports NotificationStreamClosed for its stream: a duplicate for the handle *)
 Definition signal (s : st) (k : N) : st * list uev :=
   match find_task k (tasks s) with
   | Some t =>
@@ -160,7 +166,7 @@ Definition signal (s : st) (k : N) : st * list uev :=
       | None =>
           if t_gated t
           then (set_tasks s (map_task k (fun t => mkTask (t_id t) (t_peer t) (Some false) true) (tasks s)), [])
-          else (set_tasks s (remove_task k (tasks s)), [UClosed (t_peer t)])
+          else (set_tasks s (remove_task k (tasks s)), [UClosedT (t_peer t) k])
       end
   | None => (s, [])
   end.
@@ -179,6 +185,12 @@ Definition on_shutdown (s : st) (p : peer) : st :=
   | Some (Open k) => if task_closed s k then set_ps s p (Some (Closed None)) else s
   | _ => s
   end.
+(* ... and then the protocol reports the stream closed (the notice may be the one of an older task) *)
+Definition shut_ev (s : st) (p : peer) : list uev :=
+  match ps s p with
+  | Some (Open k) => if task_closed s k then [UClosed p] else []
+  | _ => []
+  end.
 
 (* ---- TransportService calls ---- *)
 (* open_substream: Ok(sid) | Err (the id is consumed when the connection exists) *)
@@ -193,19 +205,31 @@ Definition svc_force (s : st) (p : peer) : list call :=
 
 (* ---- handlers (one per select! arm / on_* function) ---- *)
 
+(* `pending_outbound.contains_key(&substream_id)` for the id remembered in PeerState::Closed *)
+Definition reusable (s : st) (po : option sid) : option sid :=
+  match po with
+  | Some x => match pend_find x (pend s) with Some _ => Some x | None => None end
+  | None => None
+  end.
+
 Definition on_open (c : cfg) (s : st) (p : peer) : res :=
   match ps s p with
   | None =>
       if negb (should_dial c) then ok_ev s (UFail p E_DIALFAIL)
       else if dialable c p then Some (set_ps s p (Some Dialing), [], [CDial p])
       else ok_ev s (UFail p E_DIALFAIL)
-  | Some (Closed (Some x)) =>
-      ok (set_ps (set_pend s (pend_insert x p (pend s))) p (Some (OutInit x)))
-  | Some (Closed None) =>
-      match svc_open s p with
-      | (s1, Some x) =>
-          Some (set_ps (set_pend s1 (pend_insert x p (pend s1))) p (Some (OutInit x)), [], [COpen p x])
-      | (s1, None) => ok_ev (set_ps s1 p (Some (Closed None))) (UFail p E_NOCONN)
+  | Some (Closed po) =>
+      (* a remembered pending substream id is adopted only while pending_outbound still lists it
+         (its outcome is outstanding); an id whose open already failed is not (the repair of the
+         former finding class 2): a new substream is requested instead *)
+      match reusable s po with
+      | Some x => ok (set_ps (set_pend s (pend_insert x p (pend s))) p (Some (OutInit x)))
+      | None =>
+          match svc_open s p with
+          | (s1, Some x) =>
+              Some (set_ps (set_pend s1 (pend_insert x p (pend s1))) p (Some (OutInit x)), [], [COpen p x])
+          | (s1, None) => ok_ev (set_ps s1 p (Some (Closed None))) (UFail p E_NOCONN)
+          end
       end
   | Some (VPending _) => ok_ev s (UFail p E_VALPENDING)
   | Some _ => ok s
@@ -227,7 +251,7 @@ Definition on_closed (s : st) (p : peer) : res :=
       let s := set_hsI (set_hsO (set_ps s p None) p false) p false in
       match x with
       | OutInit _ => ok_ev s (UFail p E_REJECTED)
-      | Open k => let '(s1, ev) := signal s k in Some (s1, ev, [])
+      | Open k => let '(s1, ev) := signal s k in Some (s1, UClosed p :: ev, [])
       | Validating _ o i =>
           match o, i with
           | OClosed, IValidating => ok (set_ps s p (Some (VPending false)))
@@ -307,7 +331,7 @@ Definition on_dial_fail (s : st) (p : peer) : res :=
 Definition on_close (s : st) (p : peer) : res :=
   match ps s p with
   | Some (Open k) =>
-      let '(s1, ev) := signal s k in Some (set_ps s1 p (Some (Closed None)), ev, [])
+      let '(s1, ev) := signal s k in Some (set_ps s1 p (Some (Closed None)), UClosed p :: ev, [])
   | _ => ok s
   end.
 
@@ -405,7 +429,9 @@ Inductive op :=
 | Established (p : peer) | ConnClosed (p : peer) | SubIn (p : peer) | SubOut (p : peer)
 | OpenFail (p : peer) | DialFail (p : peer) | HsIn (p : peer) (okb : bool) | HsOut (p : peer) (okb : bool)
 | Validate (p : peer) (accept : bool) | Timer (p : peer) | CmdOpen (p : peer) | CmdClose (p : peer)
-| CmdForce (p : peer) | TaskDie (p : peer) (gated : bool) | Release (p : peer) | KillChan (p : peer)
+| CmdForce (p : peer) | TaskDie (p : peer) (gated : bool)
+| Release (p : peer) (older : bool)    (* held-back substream closes of p complete: all, or all but those of its newest task *)
+| KillChan (p : peer)
 | Gate (p : peer)
 | Notify (p : peer)                      (* the remote sends a notification on the open stream *)
 | NotifyDie (p : peer) (gated : bool)    (* ... and then closes the stream *)
@@ -419,7 +445,7 @@ Definition op_peer (o : op) : peer :=
   match o with
   | Established p | ConnClosed p | SubIn p | SubOut p | OpenFail p | DialFail p | HsIn p _
   | HsOut p _ | Validate p _ | Timer p | CmdOpen p | CmdClose p | CmdForce p | TaskDie p _
-  | Release p | KillChan p | Gate p | Notify p | NotifyDie p _ | GrabSink p | SendSync p _ | SendAsync p _
+  | Release p _ | KillChan p | Gate p | Notify p | NotifyDie p _ | GrabSink p | SendSync p _ | SendAsync p _
   | SinkSync p _ | SinkAsync p _ => p
   end.
 
@@ -431,8 +457,8 @@ Fixpoint first_req (p : peer) (l : list (sid * peer)) : option sid :=
   end.
 
 (* Connection tasks of p finish closing (their substream closes complete): each one notifies the
-   protocol if it closed by itself, then reports NotificationStreamClosed; the close notices are
-   handled by next_event afterwards. *)
+   protocol if it closed by itself, then reports NotificationStreamClosed for its stream; the close
+   notices are handled by next_event afterwards. *)
 Fixpoint finish_tasks (p : peer) (l : list task) : list task * list uev * N :=
   match l with
   | [] => ([], [], 0)
@@ -440,11 +466,16 @@ Fixpoint finish_tasks (p : peer) (l : list task) : list task * list uev * N :=
       let '(r', ev, n) := finish_tasks p r in
       if (t_peer t =? p) && negb (t_gated t) then
         match t_closing t with
-        | Some notify => (r', UClosed p :: ev, (if notify then 1 else 0) + n)
+        | Some notify => (r', UClosedT p (t_id t) :: ev, (if notify then 1 else 0) + n)
         | None => (t :: r', ev, n)
         end
       else (t :: r', ev, n)
   end.
+
+(* the substream closes of the tasks of p are no longer held back; `older`: except those of its newest task *)
+Definition ungate (s : st) (p : peer) (older : bool) (l : list task) : list task :=
+  map (fun t => if (t_peer t =? p) && negb (older && match lastt s p with Some k => t_id t =? k | None => false end)
+                then mkTask (t_id t) (t_peer t) (t_closing t) false else t) l.
 
 Definition run_shutdowns (s : st) (p : peer) (n : N) : st :=
   if n =? 0 then s else on_shutdown s p.
@@ -461,7 +492,8 @@ Definition task_die_op (s : st) (p : peer) (g : bool) : res :=
               | None =>
                   if g || t_gated t
                   then ok (set_tasks s (map_task k (fun t => mkTask (t_id t) (t_peer t) (Some true) true) (tasks s)))
-                  else Some (on_shutdown (set_tasks s (remove_task k (tasks s))) p, [UClosed p], [])
+                  else let s1 := set_tasks s (remove_task k (tasks s)) in
+                       Some (on_shutdown s1 p, UClosedT p k :: shut_ev s1 p, [])
               end
           | None => ok s
           end
@@ -523,10 +555,10 @@ Definition main_handler (c : cfg) (s : st) (o : op) : res :=
       | Some k => ok (set_tasks s (map_task k (fun t => mkTask (t_id t) (t_peer t) (t_closing t) true) (tasks s)))
       | None => ok s
       end
-  | Release p =>
-      let l := map (fun t => if t_peer t =? p then mkTask (t_id t) (t_peer t) (t_closing t) false else t) (tasks s) in
+  | Release p older =>
+      let l := ungate s p older (tasks s) in
       let '(l', ev, n) := finish_tasks p l in
-      Some (run_shutdowns (set_tasks s l') p n, ev, [])
+      Some (run_shutdowns (set_tasks s l') p n, ev ++ (if n =? 0 then [] else shut_ev (set_tasks s l') p), [])
   | KillChan p => if conn s p then ok (set_dead s p true) else ok s
   | GrabSink p =>
       match usink s p, hsink s p with
@@ -541,9 +573,21 @@ Definition main_handler (c : cfg) (s : st) (o : op) : res :=
 
 (* the user drains the event stream: the handle's gate and pending validations follow the events.
    A ValidateSubstream that replaces an unanswered one drops the old oneshot (second component of
-   the result); since the fix the protocol does not read a dropped sender as a verdict. NotificationStreamClosed removes the peer's NotificationSink from
-   the handle: if that sink belongs to a Connection task that is still running (the Closed came
-   from an older task), the task sees its notification channels closed and shuts down. *)
+   the result); since the fix the protocol does not read a dropped sender as a verdict.
+   A NotificationStreamClosed report is ignored unless it concerns the stream the handle lists for the
+   peer (`current`): the protocol's report means the listed stream, a Connection task's report its own.
+   A report that is not ignored removes the peer's NotificationSink from the handle: if that sink belonged
+   to a Connection task that is still running, the task would see its notification channels closed and
+   shut down (third component; C11_delivered_close_kills_nothing: never in a reachable state). *)
+Definition current (s : st) (p : peer) (k : option N) : bool :=
+  hopen s p &&
+  match k with
+  | Some k => match hsink s p with Some k' => k' =? k | None => false end
+  | None => true
+  end.
+
+Definition closed_report (e : uev) : option (peer * option N) :=
+  match e with UClosed p => Some (p, None) | UClosedT p k => Some (p, Some k) | _ => None end.
 Definition running (s : st) (k : N) : bool :=
   match find_task k (tasks s) with
   | Some t => match t_closing t with None => true | Some _ => false end
@@ -556,21 +600,40 @@ Fixpoint drain (s : st) (evs : list uev) : st * list peer * list N :=
   | e :: t =>
       match e with
       | UOpened p _ => drain (set_hsink (set_hopen s p true) p (lastt s p)) t
-      | UClosed p =>
-          let killed :=
-            match hsink s p with
-            | Some k =>
-                (* the handle drops its sink; the task notices only if no clone is left *)
-                if running s k && negb (match usink s p with Some k' => k' =? k | None => false end)
-                then [k] else []
-            | None => []
-            end in
-          let '(s1, l, ks) := drain (set_hsink (set_hopen s p false) p None) t in (s1, l, killed ++ ks)
+      | UClosed p | UClosedT p _ =>
+          if match closed_report e with Some (_, k) => current s p k | None => false end then
+            let killed :=
+              match hsink s p with
+              | Some k =>
+                  (* the handle drops its sink; the task notices only if no clone is left *)
+                  if running s k && negb (match usink s p with Some k' => k' =? k | None => false end)
+                  then [k] else []
+              | None => []
+              end in
+            let '(s1, l, ks) := drain (set_hsink (set_hopen s p false) p None) t in (s1, l, killed ++ ks)
+          else drain s t
       | UValidate p =>
           if hval s p then let '(s1, l, ks) := drain s t in (s1, p :: l, ks)
           else drain (set_hval s p true) t
       | UFail _ _ => drain s t
       | UNotif _ => drain s t
+      end
+  end.
+
+(* what the user is handed while draining: the events as they are, except that a Closed report is handed
+   out as NotificationStreamClosed only if it is not ignored (same state threading as drain) *)
+Fixpoint delivered (s : st) (evs : list uev) : list uev :=
+  match evs with
+  | [] => []
+  | e :: t =>
+      match e with
+      | UOpened p _ => e :: delivered (set_hsink (set_hopen s p true) p (lastt s p)) t
+      | UClosed p | UClosedT p _ =>
+          if match closed_report e with Some (_, k) => current s p k | None => false end
+          then UClosed p :: delivered (set_hsink (set_hopen s p false) p None) t
+          else delivered s t
+      | UValidate p => e :: delivered (if hval s p then s else set_hval s p true) t
+      | UFail _ _ | UNotif _ => e :: delivered s t
       end
   end.
 
@@ -583,7 +646,8 @@ Definition task_dies (s : st) (k : N) : st * list uev :=
       | None =>
           if t_gated t
           then (set_tasks s (map_task k (fun t => mkTask (t_id t) (t_peer t) (Some true) true) (tasks s)), [])
-          else (on_shutdown (set_tasks s (remove_task k (tasks s))) (t_peer t), [UClosed (t_peer t)])
+          else let s1 := set_tasks s (remove_task k (tasks s)) in
+               (on_shutdown s1 (t_peer t), UClosedT (t_peer t) k :: shut_ev s1 (t_peer t))
       end
   | None => (s, [])
   end.
@@ -617,7 +681,7 @@ Definition step (c : cfg) (s : st) (o : op) : res :=
       let nf := map UNotif (filter (hopen s2) (notifs_of s o)) in
       let '(s4, ev4) := kill_tasks s2 killed in
       let '(s5, _, _) := drain s4 ev4 in
-      Some (s5, ev ++ nf ++ ev4, calls)
+      Some (s5, delivered s1 ev ++ nf ++ delivered s4 ev4, calls)
   end.
 
 (* a run: outputs of every step; stops at the first stuck step *)
@@ -639,23 +703,37 @@ Fixpoint run (c : cfg) (s : st) (l : list op) : list (st * list uev * list call)
    producer that finds the channel full waits, and waiting producers are served first-come-first-served
    (tokio's mpsc semaphore is fair). `lq` is the channel content followed by the events of the waiting
    producers, in that order; the protocol loop is parked inside a handler exactly when one of its own
-   events (everything except NotificationStreamClosed, which the Connection tasks emit) sits beyond the
-   capacity. While it is parked nothing else is handled (the harness does not schedule anything else
+   events (everything except the NotificationStreamClosed reports of the Connection tasks, UClosedT) sits
+   beyond the capacity. While it is parked nothing else is handled (the harness does not schedule anything else
    either); calls a handler makes after its blocked `.await` (force_close in the timer arm) are held
-   back until it resumes. `LPoll` is one `handle.next()`: the oldest queued event, else the oldest
-   queued notification of a peer that is still in the handle's `peers` map. Send operations are left
+   back until it resumes. `LPoll` is one `handle.next()`: Closed reports that the handle ignores are
+   taken from the queue and dropped, then the oldest queued event is handed out, else the oldest
+   queued notification whose stream is the one whose sink the handle holds for the peer. Send operations are left
    to the eager model above. *)
 Record lst := mkL {
   ls : st;
   lq : list uev;          (* emitted and not yet delivered, oldest first *)
   lsk : list N;           (* the tasks whose sinks the queued NotificationStreamOpened events carry *)
-  lnf : list peer;        (* the handle's notification channel *)
+  lnf : list (peer * N);  (* the handle's notification channel: (peer, stream = Connection task that forwarded it) *)
   lheld : list call       (* calls of a parked handler that come after its blocked await *)
 }.
 
 Definition linit : lst := mkL init [] [] [] [].
 
-Definition is_task_ev (e : uev) : bool := match e with UClosed _ => true | _ => false end.
+Definition is_task_ev (e : uev) : bool := match e with UClosedT _ _ => true | _ => false end.
+
+(* a Closed report the handle ignores (`continue` in poll_next) *)
+Definition stale (s : st) (e : uev) : bool :=
+  match closed_report e with Some (p, k) => negb (current s p k) | None => false end.
+(* one `handle.next()` on the event channel: only the first `n` queued events are in the channel (the others
+   are with producers that wait for room and enter it when those are polled again); ignored reports are taken
+   and dropped, the first other event is the hit. Result: dropped reports, hit, what stays queued. *)
+Fixpoint poll_events (n : nat) (s : st) (q : list uev) : list uev * option uev * list uev :=
+  match n, q with
+  | S n', e :: t =>
+      if stale s e then let '(d, h, r) := poll_events n' s t in (e :: d, h, r) else ([], Some e, t)
+  | _, _ => ([], None, q)
+  end.
 
 (* the sinks of the Opened events a handler emits: the task it just spawned *)
 Definition new_sinks (s : st) (ev : list uev) : list N :=
@@ -672,11 +750,27 @@ Definition timer_op (o : op) : bool := match o with Timer _ => true | _ => false
 Definition lskip (cap : nat) (l : lst) (o : op) : bool :=
   parked cap l || send_op o.
 
-(* the next notification the handle hands out: entries of peers that are not in `peers` are discarded *)
-Fixpoint next_notif (s : st) (l : list peer) : option peer * list peer :=
+(* the notifications of notifs_of together with the stream (Connection task) that forwards them *)
+Definition notifs_k (s : st) (o : op) : list (peer * N) :=
+  match o with
+  | Notify p | NotifyDie p _ =>
+      match lastt s p with
+      | Some k => if running s k then [(p, k)] else []
+      | None => []
+      end
+  | _ => []
+  end.
+
+(* `self.peers.get(&peer).map_or(false, |sink| sink.stream_id() == stream_id)` *)
+Definition sink_is (s : st) (x : peer * N) : bool :=
+  hopen s (fst x) && match hsink s (fst x) with Some k => k =? snd x | None => false end.
+
+(* the next notification the handle hands out: entries of peers that are not in `peers`, or whose sink in
+   `peers` belongs to another stream than the one the notification arrived on, are discarded *)
+Fixpoint next_notif (s : st) (l : list (peer * N)) : option peer * list (peer * N) :=
   match l with
   | [] => (None, [])
-  | p :: t => if hopen s p then (Some p, t) else next_notif s t
+  | x :: t => if sink_is s x then (Some (fst x), t) else next_notif s t
   end.
 
 (* result: new state, what this `handle.next()` returned, calls made on the service *)
@@ -690,14 +784,14 @@ Definition lstep (c : cfg) (cap : nat) (l : lst) (g : lop) : option (lst * list 
         | Some (s1, ev, calls) =>
             let q1 := lq l ++ ev in
             let k1 := lsk l ++ new_sinks (ls l) ev in
-            let n1 := lnf l ++ notifs_of (ls l) o in
+            let n1 := lnf l ++ notifs_k (ls l) o in
             if parked cap (mkL s1 q1 k1 n1 (lheld l)) && timer_op o
             then Some (mkL s1 q1 k1 n1 calls, [], [])
             else Some (mkL s1 q1 k1 n1 (lheld l), [], calls)
         end
   | LPoll =>
-      match lq l with
-      | e :: rest =>
+      match poll_events cap (ls l) (lq l) with
+      | (_, Some e, rest) =>
           let '(s1, _, killed) := drain (ls l) [e] in
           (* the sink the handle stores is the one the event carries *)
           let '(s1', ks) :=
@@ -707,12 +801,15 @@ Definition lstep (c : cfg) (cap : nat) (l : lst) (g : lop) : option (lst * list 
             end in
           let '(s2, ev4) := kill_tasks s1' killed in
           let l1 := mkL s2 (rest ++ ev4) ks (lnf l) (lheld l) in
-          if parked cap l1 then Some (l1, [e], [])
-          else Some (mkL s2 (rest ++ ev4) ks (lnf l) [], [e], lheld l)
-      | [] =>
+          if parked cap l1 then Some (l1, delivered (ls l) [e], [])
+          else Some (mkL s2 (rest ++ ev4) ks (lnf l) [], delivered (ls l) [e], lheld l)
+      | (_, None, rest) =>
+          (* the channel is empty now (events of waiting producers are not in it yet): notifications *)
+          let held := if parked cap (mkL (ls l) rest (lsk l) (lnf l) (lheld l)) then lheld l else [] in
+          let out := if parked cap (mkL (ls l) rest (lsk l) (lnf l) (lheld l)) then [] else lheld l in
           match next_notif (ls l) (lnf l) with
-          | (Some p, t) => Some (mkL (ls l) [] (lsk l) t (lheld l), [UNotif p], [])
-          | (None, t) => Some (mkL (ls l) [] (lsk l) t (lheld l), [], [])
+          | (Some p, t) => Some (mkL (ls l) rest (lsk l) t held, [UNotif p], out)
+          | (None, t) => Some (mkL (ls l) rest (lsk l) t held, [], out)
           end
       end
   end.
@@ -734,8 +831,8 @@ Definition lemitted (c : cfg) (cap : nat) (l : lst) (g : lop) : list uev :=
       if lskip cap l o then []
       else match main_handler c (ls l) o with Some (_, ev, _) => ev | None => [] end
   | LPoll =>
-      match lq l with
-      | e :: _ =>
+      match poll_events cap (ls l) (lq l) with
+      | (_, Some e, _) =>
           let '(s1, _, killed) := drain (ls l) [e] in
           let '(s1', _) :=
             match e, lsk l with
@@ -743,6 +840,6 @@ Definition lemitted (c : cfg) (cap : nat) (l : lst) (g : lop) : list uev :=
             | _, ks => (s1, ks)
             end in
           snd (kill_tasks s1' killed)
-      | [] => []
+      | (_, None, _) => []
       end
   end.
